@@ -67,6 +67,7 @@ type vfConf struct {
 	Lat, Lon         float64
 	Alt, Acc         float64
 	LocTime          string // RFC3339 or ""
+	LocKeys          int    // 0: full [location] section, 1: no [location] section at all, 2: altitude/accuracy only
 	Min, Max, Prev   int
 	Cont             bool
 	MinDiskMB        int64
@@ -97,9 +98,14 @@ func vfTomlString(s string) string {
 func vfWriteConfig(dir, outDir string, c vfConf) error {
 	var b strings.Builder
 	fmt.Fprintf(&b, "[device]\nid = %d\nname = %s\n\n", c.DeviceID, vfTomlString(c.DeviceName))
-	fmt.Fprintf(&b, "[location]\nlatitude = %v\nlongitude = %v\naltitude = %v\naccuracy = %v\n", c.Lat, c.Lon, c.Alt, c.Acc)
-	if c.LocTime != "" {
-		fmt.Fprintf(&b, "timestamp = %s\n", c.LocTime) // TOML datetime literal, as go-config itself writes it
+	switch c.LocKeys {
+	case 0:
+		fmt.Fprintf(&b, "[location]\nlatitude = %v\nlongitude = %v\naltitude = %v\naccuracy = %v\n", c.Lat, c.Lon, c.Alt, c.Acc)
+		if c.LocTime != "" {
+			fmt.Fprintf(&b, "timestamp = %s\n", c.LocTime) // TOML datetime literal, as go-config itself writes it
+		}
+	case 2:
+		fmt.Fprintf(&b, "[location]\naltitude = %v\naccuracy = %v\n", c.Alt, c.Acc)
 	}
 	fmt.Fprintf(&b, "\n[thermal-recorder]\noutput-dir = %s\nmin-secs = %d\nmax-secs = %d\npreview-secs = %d\nconstant-recorder = %v\nmin-disk-space-mb = %d\n\n",
 		vfTomlString(outDir), c.Min, c.Max, c.Prev, c.Cont, c.MinDiskMB)
